@@ -226,3 +226,131 @@ fn c14_csv_rows_basic() {
     rows_case(b",", false, &[&[0, 0]]);
     rows_case(b"\"\",\n\"\"\n", false, &[&[1, 0], &[1]]);
 }
+
+// ------------------------------------------------------------------------------------------
+// C14: YAML - a text string is written plain only if a YAML reader gives the same string back.
+// `needs_quote` is the property's side of the contract, written from the YAML 1.2.2 core schema
+// (section 10.3.2, tag resolution) and the plain-scalar rule that leading / trailing blanks are
+// not part of a plain scalar; `must_quote` is the code's side.  The obligation is
+// needs_quote(s) ==> must_quote(s), at points (literals).
+// ------------------------------------------------------------------------------------------
+fn all_of(s: &[u8], f: fn(&u8) -> bool) -> bool {
+    let mut i = 0;
+    while i < s.len() {
+        if !f(&s[i]) {
+            return false;
+        }
+        i += 1;
+    }
+    !s.is_empty()
+}
+fn is_digits(s: &[u8]) -> bool {
+    all_of(s, u8::is_ascii_digit)
+}
+fn unsigned(s: &[u8]) -> (&[u8], bool) {
+    match s {
+        [b'-' | b'+', rest @ ..] => (rest, true),
+        _ => (s, false),
+    }
+}
+fn find(s: &[u8], f: fn(&u8) -> bool) -> Option<usize> {
+    let mut i = 0;
+    while i < s.len() {
+        if f(&s[i]) {
+            return Some(i);
+        }
+        i += 1;
+    }
+    None
+}
+/// `[-+]? [0-9]+ | 0o [0-7]+ | 0x [0-9a-fA-F]+`
+fn core_int(s: &[u8]) -> bool {
+    let (u, signed) = unsigned(s);
+    is_digits(u)
+        || (!signed && matches!(s, [b'0', b'o', rest @ ..] if all_of(rest, |c| (b'0'..=b'7').contains(c))))
+        || (!signed && matches!(s, [b'0', b'x', rest @ ..] if all_of(rest, u8::is_ascii_hexdigit)))
+}
+/// `[-+]? ( \. [0-9]+ | [0-9]+ ( \. [0-9]* )? ) ( [eE] [-+]? [0-9]+ )?`, `[-+]? \.(inf|Inf|INF)`, `\.(nan|NaN|NAN)`
+fn core_float(s: &[u8]) -> bool {
+    let (u, signed) = unsigned(s);
+    if matches!(u, b".inf" | b".Inf" | b".INF") {
+        return true;
+    }
+    if !signed && matches!(s, b".nan" | b".NaN" | b".NAN") {
+        return true;
+    }
+    let (m, exp_ok) = match find(u, |c| *c == b'e' || *c == b'E') {
+        Some(i) => (&u[..i], is_digits(unsigned(&u[i + 1..]).0)),
+        None => (u, true),
+    };
+    let m_ok = match m {
+        [b'.', frac @ ..] => is_digits(frac),
+        _ => match find(m, |c| *c == b'.') {
+            Some(i) => is_digits(&m[..i]) && (m[i + 1..].is_empty() || is_digits(&m[i + 1..])),
+            None => is_digits(m),
+        },
+    };
+    m_ok && exp_ok
+}
+fn needs_quote(s: &[u8]) -> bool {
+    let blank = |c: &u8| *c == b' ' || *c == b'\t';
+    matches!(s, b"" | b"~" | b"null" | b"Null" | b"NULL" | b"true" | b"True" | b"TRUE" | b"false" | b"False" | b"FALSE" | b"---" | b"...")
+        || core_int(s)
+        || core_float(s)
+        || s.first().is_some_and(blank)
+        || s.last().is_some_and(blank)
+}
+fn quote_point(s: &[u8]) {
+    // the literal is in the property's domain (guards against a vacuous implication) ...
+    assert!(needs_quote(s));
+    // ... so the writer must not emit it as a plain scalar
+    assert!(crate::write::yaml::verif_must_quote(s));
+}
+/// numbers, null, booleans, document markers in their usual spelling
+#[kani::proof]
+#[kani::unwind(12)]
+fn c14_yaml_quote_core() {
+    quote_point(b"1");
+    quote_point(b"-1");
+    quote_point(b"1e3");
+    quote_point(b"0x1F");
+    quote_point(b"~");
+    quote_point(b"null");
+    quote_point(b"True");
+    quote_point(b"---");
+    quote_point(b".nan");
+    quote_point(b".inf");
+}
+/// numbers with an explicit plus sign or without an integer part
+#[kani::proof]
+#[kani::unwind(12)]
+fn c14_yaml_quote_num() {
+    quote_point(b"+1");
+    quote_point(b".5");
+    quote_point(b"-.5");
+    quote_point(b"+.5e1");
+}
+/// signed infinities
+#[kani::proof]
+#[kani::unwind(12)]
+fn c14_yaml_quote_inf() {
+    quote_point(b"-.inf");
+    quote_point(b"+.inf");
+    quote_point(b"-.INF");
+}
+/// leading and trailing blanks
+#[kani::proof]
+#[kani::unwind(12)]
+fn c14_yaml_quote_blank() {
+    quote_point(b" a");
+    quote_point(b"a ");
+    quote_point(b"a\t");
+    quote_point(b"a b ");
+}
+/// vacuity guard for `needs_quote`: ordinary words and non-numbers are outside the domain
+#[kani::proof]
+#[kani::unwind(12)]
+fn c14_yaml_quote_spec_sanity() {
+    assert!(!needs_quote(b"a b") && !needs_quote(b"+") && !needs_quote(b".") && !needs_quote(b"+a") && !needs_quote(b"1a") && !needs_quote(b"e1") && !needs_quote(b"0x"));
+    assert!(needs_quote(b"1.") && needs_quote(b"1.5E-3") && needs_quote(b"0o17"));
+}
